@@ -284,6 +284,151 @@ def do_validate(p):
     return {"before": before, "validate": res, "ran": ran}
 
 
+# ------------------------------------------------------------------------------------------ derived processors
+
+
+def _nodes_by_path(o, pre=(), depth=0, out=None):
+    """path -> id() of every object a key can walk through (configuration objects, dicts, Arguments, groups, models)."""
+    if out is None:
+        out = {}
+    cls = type(o).__name__
+    if isinstance(o, dict) and type(o) is dict:
+        out[pre] = id(o)
+        for k, v in o.items():
+            if isinstance(k, str):
+                _nodes_by_path(v, pre + (k,), depth + 1, out)
+        return out
+    if cls not in DESCEND or depth > 8:
+        return out
+    out[pre] = id(o)
+    for n in sorted(set(dir(type(o)))):
+        if not public(n):
+            continue
+        attr = inspect.getattr_static(type(o), n)
+        if isinstance(attr, property):
+            read = cls in READ_ALL and n not in NO_READ or \
+                   (cls in READ_SOME and (n in o.MODEL_GROUPS if READ_SOME[cls] is None else n in READ_SOME[cls]))
+            if read:
+                try:
+                    _nodes_by_path(getattr(o, n), pre + (n,), depth + 1, out)
+                except Exception:  # noqa: BLE001 - a getter that refuses to answer holds no object
+                    pass
+    for n, v in vars(o).items():
+        if public(n):
+            _nodes_by_path(v, pre + (n,), depth + 1, out)
+    if cls == "Arguments":
+        for k, v in o._arguments.items():
+            _nodes_by_path(v, pre + (k,), depth + 1, out)
+    if cls == "ModelGroup":
+        for m in o.models:
+            _nodes_by_path(m, pre + (m.name,), depth + 1, out)
+    return out
+
+
+def shared_paths(a, b):
+    """top-most paths of `a` whose object is also reachable (through key components) from `b`: the SAME object."""
+    na, nb = _nodes_by_path(a), _nodes_by_path(b)
+    ids_b = set(nb.values())
+    hit = sorted(p for p, i in na.items() if i in ids_b)
+    top = [p for p in hit if not any(q != p and p[:len(q)] == q for q in hit)]
+    return [list(p) for p in top]
+
+
+def internal_sharing(a):
+    na = _nodes_by_path(a)
+    seen, dup = {}, []
+    for p, i in sorted(na.items()):
+        if i in seen:
+            dup.append([list(seen[i]), list(p)])
+        else:
+            seen[i] = p
+    return dup
+
+
+VIAS = ("deepcopy", "replace", "create_new_processor", "build_processors", "update_processor")
+
+
+def derive(proc, via, key, value):
+    """the real entry points that work on a copy of a processor and assign through keys on that copy"""
+    import copy as _copy
+    if via == "deepcopy":
+        c = _copy.deepcopy(proc)
+        return c, (lambda: c.set(key, value))
+    if via == "replace":
+        return None, (lambda: proc.replace({key: value}))
+    if via == "create_new_processor":
+        from pyxel.observation import create_new_processor
+        return None, (lambda: create_new_processor(proc, parameter_dict={key: value}))
+    if via == "build_processors":
+        from pyxel.calibration.fitting_datatree import build_processors
+        from pyxel.observation import ParameterValues
+        return None, (lambda: build_processors(proc, [ParameterValues(key=key, values=[value])])[0])
+    if via == "update_processor":
+        from types import SimpleNamespace
+        from pyxel.calibration.fitting_datatree import ModelFittingDataTree
+        from pyxel.observation import ParameterValues
+        fake = SimpleNamespace(_variables=[ParameterValues(key=key, values="_")])
+        return None, (lambda: ModelFittingDataTree.update_processor(fake, np.array([value], dtype=float), proc))
+    raise ValueError(via)
+
+
+def plain_copy(proc, via):
+    """a derived processor with no change (made through the same machinery)"""
+    import copy as _copy
+    if via == "replace":
+        return proc.replace({})
+    if via == "create_new_processor":
+        from pyxel.observation import create_new_processor
+        return create_new_processor(proc, parameter_dict={})
+    return _copy.deepcopy(proc)
+
+
+def do_derive(p):
+    """original -> sibling copy (made before) -> copy with `key := value` -> later copy; snapshots of all of them."""
+    proc = make_processor(p)
+    key, via = p["key"], p["via"]
+    keep = set(key.split("."))
+    before = tree_of(proc, keep)
+    try:
+        has = {"ok": bool(proc.has(key))}
+    except Exception as ex:  # noqa: BLE001
+        has = {"raise": exn_name(ex)}
+    value = decode(p["value"])
+    sib = plain_copy(proc, via)
+    sib_before = tree_of(sib, keep)
+    set_r = None
+    c, act = derive(proc, via, key, value)
+    try:
+        r = act()
+        if c is None:
+            c = r
+    except Exception as ex:  # noqa: BLE001
+        set_r = exn_name(ex)
+    target = c if c is not None else proc
+    try:
+        copy_after = tree_of(target, keep) if c is not None else before
+    except Exception as ex:  # noqa: BLE001
+        copy_after = {"leaf": {"t": "opaque", "v": "uninspectable:" + exn_name(ex)}}
+    try:
+        got = target.get(key)
+        get = {"ok": canon(got) if not _is_node(got) else {"t": "opaque", "v": _node_tag(got)}}
+    except Exception as ex:  # noqa: BLE001
+        get = {"raise": exn_name(ex)}
+    orig_after = tree_of(proc, keep)
+    sib_after = tree_of(sib, keep)
+    later = plain_copy(proc, via)
+    later_tree = tree_of(later, keep)
+    shared = []
+    if c is not None:
+        shared = shared_paths(proc, c)
+        for x in shared_paths(sib, c) + shared_paths(proc, sib) + shared_paths(proc, later):
+            if x not in shared:
+                shared.append(x)
+    return {"before": before, "has": has, "set": set_r, "after": copy_after, "get": get,
+            "orig_after": orig_after, "sib_before": sib_before, "sib_after": sib_after, "later": later_tree,
+            "shared": shared, "internal": internal_sharing(proc)[:5]}
+
+
 def handle(p):
     op = p["op"]
     if op == "set":
@@ -292,4 +437,6 @@ def handle(p):
         return do_eval(p)
     if op == "validate":
         return do_validate(p)
+    if op == "derive":
+        return do_derive(p)
     raise ValueError(op)
